@@ -32,7 +32,7 @@ CASE_TIMEOUT = {'quick': 180, 'thorough': 400}
 
 
 # appended to RULE in the evidence (vlib/runner.py)
-RULE_ADDENDUM = 'Added in rounds 4-5: every second case reuses one simulator object across resets; junction / zone isolation schedules; the model edited after its runs (pump curve points, roughness, base demand), reset and compared with an equal model rebuilt from its dictionary. Round 6: options.report.nodes / links as shuffled name lists in 35 % of the cases.'
+RULE_ADDENDUM = 'Added in rounds 4-5: every second case reuses one simulator object across resets; junction / zone isolation schedules; the model edited after its runs (pump curve points, roughness, base demand), reset and compared with an equal model rebuilt from its dictionary. Round 6: options.report.nodes / links as shuffled name lists in 35 % of the cases. Round 7: every third EPANET definition check runs with version=2.0.'
 
 def n_cases(tier):
     return base_cases(tier) + len(suite.files(tier))     # + the repository's own tests under the monitor (vlib/props/suite.py)
